@@ -45,6 +45,7 @@ class Exec:
         self.loop = None
         self.proc = None
         self.task = None
+        self.close_live_at = None
         self.samples = []
         self.transitions = []
         self.events = []
@@ -274,6 +275,22 @@ class Exec:
         if kind == 'tick':
             ran = self.tick(ev[1])
             self.events.append({'ev': ev, 'ran': ran})
+            return None
+        if kind == 'close':
+            # the owner declares that the process will not be run any more (public close(), also on a live process):
+            # it drops the lifecycle callbacks, later control calls still work on the bare state machine
+            if self.close_live_at is None and not self.proc.has_terminated():
+                self.close_live_at = len(self.samples)
+            with self.loop.as_running():
+                try:
+                    self.proc.close()
+                    # close() dropped the harness's observer with everything else: look on
+                    if self._entered not in self.proc._event_callbacks.get(StateEventHook.ENTERED_STATE, []):
+                        self.proc.add_state_event_callback(StateEventHook.ENTERED_STATE, self._entered)
+                except Exception as exc:  # noqa: BLE001
+                    self.harness_errors.append(f'close() raised {exc!r}')
+            self.events.append({'ev': ev})
+            self.sample(kind)
             return None
         if kind == 'withdraw':
             # the caller gives up waiting for its last pending kill (asyncio.wait_for(proc.kill(), t) timing out cancels
